@@ -125,6 +125,7 @@ struct Rec3 {
     b: Vec<u32>,
     c: String,
 }
+static CRC32: crc::Crc<u32> = crc::Crc::<u32>::new(&crc::CRC_32_ISCSI);
 fn alloc_one<T: serde::de::DeserializeOwned>(name: &str, esz: usize, assert: bool, input: &[u8], entry: u8, scratch: &mut [u8], out: &mut Out) {
     let sl = scratch.len();
     // the transport is created outside the measured region and does not log, so only postcard/serde allocate
@@ -133,6 +134,7 @@ fn alloc_one<T: serde::de::DeserializeOwned>(name: &str, esz: usize, assert: boo
     let (r, st) = measure(|| {
         catch(|| match entry {
             0 => postcard::from_bytes::<T>(input).map(|_| ()),
+            3 => postcard::take_from_bytes_crc32::<T>(input, CRC32.digest()).map(|_| ()),
             1 => postcard::from_io::<T, _>((&mut rd, scratch)).map(|_| ()),
             _ => postcard::from_eio::<T, _>((Eio(&mut rd), scratch)).map(|_| ()),
         })
@@ -142,9 +144,9 @@ fn alloc_one<T: serde::de::DeserializeOwned>(name: &str, esz: usize, assert: boo
         Ok(Err(e)) => errname(&e).to_string(),
         Err(_) => "panic".to_string(),
     };
-    let ename = ["from_bytes", "from_io", "from_eio"][entry as usize];
+    let ename = ["from_bytes", "from_io", "from_eio", "take_from_bytes_crc32"][entry as usize];
     out.ev(json!({"op":"alloc","ty":name,"esz":esz,"assert":assert as u8,"input":jb(input),"input_len":input.len(),"entry":ename,
-                  "scratch_len": if entry == 0 { 0 } else { sl },"alloc_peak":st.peak,"alloc_max":st.max_request,"res":res}));
+                  "scratch_len": if entry == 0 || entry == 3 { 0 } else { sl },"alloc_peak":st.peak,"alloc_max":st.max_request,"res":res}));
 }
 fn varint(mut n: u128) -> Vec<u8> {
     let mut o = vec![];
@@ -175,7 +177,7 @@ fn alloc_events(out: &mut Out, r: &mut StdRng, n: usize) {
         if i % 16 == 15 {
             input.insert(0, 1); // Option<Vec<..>>: Some
         }
-        let entry = (i % 3) as u8;
+        let entry = (i % 4) as u8;
         let sl = [0usize, 8, 64, 300][r.gen_range(0..4)];
         let mut scratch = vec![0u8; sl];
         macro_rules! go {
